@@ -2,7 +2,12 @@
 
 package provider
 
-import "io"
+import (
+	"io"
+
+	"github.com/zitadel/saml/pkg/provider/xml/md"
+	"github.com/zitadel/saml/pkg/provider/xml/samlp"
+)
 
 // Hooks for the verification harness in /verif (build tag "verif"): thin wrappers that expose unexported pieces so
 // that they can be driven directly. No existing line is changed; without the tag this file is not compiled.
@@ -15,4 +20,14 @@ func VerifRenderPostForm(p *Provider, w io.Writer, relayState, samlResponse, acs
 // VerifRenderLogoutForm executes the provider's logout auto-submit template exactly as sendBackLogoutResponse does.
 func VerifRenderLogoutForm(p *Provider, w io.Writer, relayState, samlResponse, logoutURL string) error {
 	return p.identityProvider.logoutTemplate.Execute(w, LogoutResponseForm{RelayState: relayState, SAMLResponse: samlResponse, LogoutURL: logoutURL})
+}
+
+// VerifDestinationOfAuthRequest runs the Destination check of the single sign-on handler.
+func VerifDestinationOfAuthRequest(metadata *md.IDPSSODescriptorType, request *samlp.AuthnRequestType) error {
+	return verifyRequestDestinationOfAuthRequest(metadata, request)
+}
+
+// VerifDestinationOfAttrQuery runs the Destination check of the attribute query handler.
+func VerifDestinationOfAttrQuery(metadata *md.AttributeAuthorityDescriptorType, request *samlp.AttributeQueryType) error {
+	return verifyRequestDestinationOfAttrQuery(metadata, request)
 }
